@@ -546,6 +546,7 @@ def run_unit(case):
     try:
         if name.startswith("flux:"):
             with FakeFluxInstalled():
+                WORLD.reset()
                 adapter, obs["how"] = make_adapter(name)
                 WORLD.reset(fail=to_int_ids(name, fail))
                 try:
@@ -686,6 +687,7 @@ def run_e2e(case, rng=None):
     if gen:
         case["polls"] = []
     try:
+        WORLD.reset()
         with FakeFluxInstalled(), RealLocalRegistered():
             w = ProcWorld(rc=case.get("rc", 1), pool=pool if not isflux else None)
             if isflux:
